@@ -110,6 +110,15 @@ def storage_audit(P, R):
                             if u.ev['k'] == 'store' and root_var(u.ev['lhs']) is not None and root_var(u.ev['lhs'])['name'] == t.params[0] and not is_var(u.ev['lhs']):
                                 if not (u.ev.get('op') in ('++', '+=') and u.ev['lhs'].get('k') == 'mem' and u.ev['lhs']['field'] == 'assigned'):
                                     bad.append(u.loc)
+                        # ... and what it decides does not depend on how many clients hit the rule before this one:
+                        # the counter's value reaches neither a return value nor a branch condition
+                        for u in t.sites():
+                            if u.ev['k'] == 'ret' and any(x.get('k') == 'mem' and x.get('field') == 'assigned' for x in walk(u.ev.get('val'))):
+                                bad.append('%s (returned)' % u.loc)
+                        for b2 in t.blocks:
+                            c2 = t.term_cond(b2)
+                            if c2 is not None and any(x.get('k') == 'mem' and x.get('field') == 'assigned' for x in walk(c2)):
+                                bad.append('%s (branched on)' % ((t.blocks[b2].get('term') or {}).get('loc')))
                     R.ob('C07.WMC.1', not bad, s, 'rule functions only increment the per-rule hit counter of the rule entry they are given', key='rule-hit-counter', detail=bad or None)
                     continue
                 # release of an unreferenced service slot
@@ -292,6 +301,12 @@ def run(P, R, tier):
     # the request table orders ids with the int comparator: a comparator that is not a total order files one client
     # where another client's traffic decides whether it is found
     c19.comparators(P, R, 'C07.ARITH.2')
+    # a finished request is removed by its own record (the table key is its id), and replies reach requests only
+    # through the validating lookup
+    from . import c01
+    V, softfns = c01.fmt_rules(P, Remap(R, {}))
+    c01.verdict_discipline(P, Remap(R, {'C01.MPT.1': 'C07.MPT.3'}, keys=('removes-own',)), V)
+    c04.lookup_discipline(P, Remap(R, {'C04.WMC.1': 'C07.GRD.2'}))
     # whether a client is held depends on its own awaiting mask, not on what other clients wait for
     holds.soft_hold_typestate(P, R, 'C07.GRD.3')
     # one client's line is handled whatever line of another client precedes it in the same read
